@@ -58,6 +58,12 @@ impl DataMapRecord {
         ) {
             ctx.report("'slng' or 'dlng' tags use ScriptLangTag data");
         }
+        // the reader picks the flavour of the data from the tag alone
+        if !matches!(self.tag, SLNG | DLNG)
+            && matches!(self.data.as_ref(), Metadata::ScriptLangTags(_))
+        {
+            ctx.report("only 'slng' or 'dlng' tags use ScriptLangTag data");
+        }
     }
 
     fn compute_data_len(&self) -> usize {
@@ -167,5 +173,14 @@ mod tests {
         //eprintln!("{read_back:#?}");
 
         assert_eq!(table, read_back);
+    }
+
+    #[test]
+    fn script_lang_tags_need_a_lang_tag() {
+        let tags = Metadata::ScriptLangTags(vec![ScriptLangTag::new("en-Latn".into()).unwrap()]);
+        let bad = Meta::new(vec![DataMapRecord::new(Tag::new(b"appl"), tags.clone())]);
+        assert!(crate::dump_table(&bad).is_err());
+        let good = Meta::new(vec![DataMapRecord::new(DLNG, tags)]);
+        assert!(crate::dump_table(&good).is_ok());
     }
 }
